@@ -527,4 +527,136 @@ example : MembersRecomputed (savedOf (objOf exTwoM)).obj.secs (savedOf (objOf ex
   ⟨members_recomputed exTwo_ok.saved exTwo_ok.ok exTwo_ok.dom exTwo_resave.cov (memberDomain_of_B exTwo_resave.members)
     exTwo_ok.noWrap (addrSeparate_of_B exTwo_resave.sep), by decide +kernel⟩
 
+/-! ### 4. nested segments : `SavedSane.segInside` discharged (C02 / C05 / C20) -/
+
+/-- objects whose segments are flat (`selE`) or nested (`selN`: at its turn the segment starts at its
+    already generated first member, all members generated and listed in file order — `layoutNestedB`);
+    every segment is one or the other; SHT_NULL-typed sections are empty -/
+structure NestedDomain (o : Obj) (hd : Bytes) (selE selN : Nat → Bool) : Prop extends ComposeDomain o hd where
+  dom : layoutDomB false false selE (preSave o) hd = true
+  nest : layoutNestedB selN (preSave o) hd = true
+  cover : ∀ g ∈ o.segs, (selE g.index = true ∧ lseg_is_phdr g.stype (BitVec.ofNat 16 g.secs.length) = false) ∨
+    selN g.index = true
+  null0 : ∀ s ∈ o.secs, s.stype = BitVec.ofNat 32 SHT_NULL → s.size = 0
+
+/-- **reload_reports_saved_nested** : `reload_reports_saved` for objects with flat *and nested* segments,
+    hypotheses on the input object only (plus `NoWrap64` of the saved object): the file range of a nested
+    segment ends exactly at the end of one of its members (`RoundTrip.segInside_nested`), hence inside the
+    file. -/
+theorem reload_reports_saved_nested {o : Obj} {os : OStream} {r : SaveRes} {hd : Bytes} {selE selN : Nat → Bool}
+    (hs : save o os = .ok r) (hok : r.ok = true) (hg : os.Good) (hos : os.content.length < 9223372036854775808)
+    (D : NestedDomain o hd selE selN) (hw : NoWrap64 r.obj.secs r.obj.segs)
+    (o2 : Obj) (k : StreamKind) (isLazy : Bool) (htr2 : o2.trans = []) :
+    ∃ (hF : Bytes) (r2 : LoadRes), r.obj.hdr = some hF ∧
+      load o2 { data := r.os.content, kind := k } isLazy = .ok r2 ∧ r2.ok = true ∧
+      Reloaded o.cls o.enc hF r.obj.secs r.obj.segs r.os.content isLazy r2.obj := by
+  obtain ⟨hF, hhF, hl, hsm, hnwrap⟩ := D.toComposeDomain.writer hs hok hos hw
+  obtain ⟨r2, h1, h2, h3⟩ := reload_reports_saved hs hok hg D.tr D.hdr D.input D.nw hsm hhF hl
+    (savedSane_mixed hs hok D.hdr D.input D.nw selE selN D.dom D.nest D.cover hnwrap) o2 k isLazy htr2
+  exact ⟨hF, r2, hhF, h1, h2, h3⟩
+
+/-- **loaded_satisfies_Loaded_nested** (C05) : the eager reload of a saved object with flat and nested
+    segments satisfies `C05.Loaded` -/
+theorem loaded_satisfies_Loaded_nested {o : Obj} {os : OStream} {r : SaveRes} {hd : Bytes} {selE selN : Nat → Bool}
+    (hs : save o os = .ok r) (hok : r.ok = true) (hg : os.Good) (hos : os.content.length < 9223372036854775808)
+    (D : NestedDomain o hd selE selN) (hw : NoWrap64 r.obj.secs r.obj.segs)
+    (o2 : Obj) (k : StreamKind) (htr2 : o2.trans = []) :
+    ∃ r2 : LoadRes, load o2 { data := r.os.content, kind := k } false = .ok r2 ∧ r2.ok = true ∧
+      r2.obj.cls = o.cls ∧ r2.obj.enc = o.enc ∧ r2.obj.trans = [] ∧ r2.obj.hdr = r.obj.hdr ∧
+      C05.Loaded o.cls o.enc r2.obj.secs r2.obj.segs r.os.content := by
+  obtain ⟨hF, hhF, hl, hsm, hnwrap⟩ := D.toComposeDomain.writer hs hok hos hw
+  exact loaded_satisfies_Loaded hs hok hg D.tr D.hdr D.input D.nw hsm hhF hl
+    (savedSane_mixed hs hok D.hdr D.input D.nw selE selN D.dom D.nest D.cover hnwrap) o2 k htr2
+
+/-- **validate_silent_reloaded_nested_unconditional** (C20) : objects with flat and nested segments; a
+    PT_LOAD with file size > 0 that is itself nested starts at a file-occupying first member carrying its
+    `p_vaddr` (`hsel`, as in `C20.validate_silent_save_nested`).  `validate` returns no complaint on the
+    saved object and on the object the model's `load` yields from the saved bytes (eager or lazy). -/
+theorem validate_silent_reloaded_nested_unconditional {o : Obj} {os : OStream} {r : SaveRes} {hd : Bytes}
+    {selE selN : Nat → Bool}
+    (hs : save o os = .ok r) (hok : r.ok = true) (hg : os.Good) (hos : os.content.length < 9223372036854775808)
+    (D : NestedDomain o hd selE selN) (hw : NoWrap64 r.obj.secs r.obj.segs)
+    (hsel : ∀ g ∈ r.obj.segs, g.stype = BitVec.ofNat 32 PT_LOAD → 0 < g.filesz.toNat →
+      selE g.index = true ∨
+      (selN g.index = true ∧ ∀ f sf, g.secs.head? = some f → r.obj.secs[f.toNat]? = some sf →
+        sf.Occ ∧ g.vaddr = sf.addr))
+    (o2 : Obj) (k : StreamKind) (isLazy : Bool) (htr2 : o2.trans = []) :
+    validate r.obj = [] ∧
+    ∃ r2 : LoadRes, load o2 { data := r.os.content, kind := k } isLazy = .ok r2 ∧ r2.ok = true ∧
+      validate r2.obj = [] := by
+  obtain ⟨hF, r2, hhF, hload, hok2, R⟩ := reload_reports_saved_nested hs hok hg hos D hw o2 k isLazy htr2
+  obtain ⟨hk1, hk2⟩ := reloaded_vkeys R
+  have hnd := nodup_of_idx (idx_of_B _ _ D.input.segIdx)
+  have hstart := layoutNestedB_start selN _ _ D.nest
+  exact ⟨C20.validate_silent_save_nested o os r hd hs hok D.hdr D.input.nsecs D.input.h0 D.null0 D.nw hnd selE selN
+      D.dom hstart hsel,
+    r2, hload, hok2, C20.validate_silent_reloaded_nested o os r hd r2.obj hs hok D.hdr D.input.nsecs D.input.h0
+      D.null0 D.nw hnd selE selN D.dom hstart hsel hk1 hk2⟩
+
+/-- ELF32/MSB: `exFlatM` plus a second PT_LOAD *nested* in the first one, over `.data` alone, with
+    `.data`'s explicit address as its `p_vaddr` -/
+def exNestedM : M Obj := do
+  let o ← exFlatM
+  let o := segmentsAdd o
+  let o := C06.updSeg o 1 fun g => { g with stype := 1, flags := 6, align := 4, vaddr := 0x8020, paddr := 0x8020 }
+  let o := C06.updSeg o 1 fun g => segAddSection g 3 4
+  pure o
+
+/-- what `validate_silent_reloaded_nested_unconditional` asks of the saved PT_LOAD segments -/
+def nestedLoadSelB (o : Obj) (selE selN : Nat → Bool) : Bool :=
+  o.segs.all fun g =>
+    selE g.index ||
+      (selN g.index && match g.secs.head? with
+        | some f => (match o.secs[f.toNat]? with
+          | some sf => decide sf.Occ && g.vaddr == sf.addr
+          | none => true)
+        | none => true)
+
+theorem nestedLoadSel_of_B {o : Obj} {selE selN : Nat → Bool} (h : nestedLoadSelB o selE selN = true) :
+    ∀ g ∈ o.segs, g.stype = BitVec.ofNat 32 PT_LOAD → 0 < g.filesz.toNat →
+      selE g.index = true ∨
+      (selN g.index = true ∧ ∀ f sf, g.secs.head? = some f → o.secs[f.toNat]? = some sf →
+        sf.Occ ∧ g.vaddr = sf.addr) := by
+  intro g hg _ _
+  unfold nestedLoadSelB at h
+  rw [List.all_eq_true] at h
+  have := h g hg
+  simp only [Bool.or_eq_true, Bool.and_eq_true] at this
+  rcases this with h1 | ⟨h1, h2⟩
+  · exact Or.inl h1
+  · refine Or.inr ⟨h1, fun f sf hf hsf => ?_⟩
+    rw [hf] at h2
+    simp only at h2
+    rw [hsf] at h2
+    simp only [Bool.and_eq_true, decide_eq_true_eq, beq_iff_eq] at h2
+    exact h2
+
+theorem exNested_ok :
+    save (objOf exNestedM) {} = .ok (savedOf (objOf exNestedM)) ∧ (savedOf (objOf exNestedM)).ok = true ∧
+    NestedDomain (objOf exNestedM) ((objOf exNestedM).hdr.getD []) (fun i => i == 0) (fun i => i == 1) ∧
+    NoWrap64 (savedOf (objOf exNestedM)).obj.secs (savedOf (objOf exNestedM)).obj.segs ∧
+    nestedLoadSelB (savedOf (objOf exNestedM)).obj (fun i => i == 0) (fun i => i == 1) = true := by
+  refine ⟨savedOf_eq _ (by decide +kernel), by decide +kernel,
+    ⟨⟨by decide +kernel, by decide +kernel,
+      ⟨by decide +kernel, by decide +kernel, by decide +kernel, by decide +kernel, by decide +kernel,
+       by decide +kernel, by decide +kernel, by decide +kernel, by decide +kernel, by decide +kernel,
+       by decide +kernel, by decide +kernel, by decide +kernel, by decide +kernel⟩,
+      by decide +kernel, by decide +kernel, by decide +kernel⟩,
+     by decide +kernel, by decide +kernel, by decide +kernel, by decide +kernel⟩,
+    ⟨by decide +kernel, by decide +kernel⟩, by decide +kernel⟩
+
+/-- the nested theorems on `exNestedM` (segment 0 flat, segment 1 a PT_LOAD nested in it): the reload
+    succeeds, reports the saved object and gets no complaint from `validate`, for every stream kind and
+    load mode; the nested segment's file range is `[0x1020, 0x1028)` inside the enclosing `[0x1000, 0x1028)` -/
+example (k : StreamKind) (isLazy : Bool) :
+    validate (savedOf (objOf exNestedM)).obj = [] ∧
+    ∃ r2 : LoadRes, load {} { data := (savedOf (objOf exNestedM)).os.content, kind := k } isLazy = .ok r2 ∧
+      r2.ok = true ∧ validate r2.obj = [] := by
+  obtain ⟨h1, h2, h3, h4, h5⟩ := exNested_ok
+  exact validate_silent_reloaded_nested_unconditional h1 h2 ⟨rfl, rfl⟩ (by decide) h3 h4 (nestedLoadSel_of_B h5)
+    {} k isLazy rfl
+
+example : ((savedOf (objOf exNestedM)).obj.segs.map fun g => (g.offset, g.filesz)) =
+    [(0x1000#64, 0x28#64), (0x1020#64, 8#64)] := by decide +kernel
+
 end ElfioVerif.Compose
